@@ -127,6 +127,11 @@ def judge(gen, typ, payload, layout, viol, obs):
         ref = R.read_status(gen, typ, payload)
     except R.Reject:
         obs["ref_rejects_repo_decodes"] = obs.get("ref_rejects_repo_decodes", 0) + 1
+        extra = X.records_beyond_announced(gen, typ, payload, X.extract(gen, msg))
+        if extra:
+            viol.append({"mechanism": f"records-decoded-beyond-the-announced-count:{layout}",
+                         "detail": {"payload": payload, "typ": typ, "extra_records": extra}})
+            return 1
         return 0
     if ref is R.UNDEC:
         obs["undecided"] = obs.get("undecided", 0) + 1
